@@ -53,12 +53,15 @@ func (fr *Frame) makeMap(i *ssa.MakeMap) *Val {
 func (fr *Frame) mapLen(t types.Type, m *Val) *Val {
 	mh := fr.mapHeaps(t)
 	v := &Val{t: sel(fr.vc.heapGet(fr.st, mh.ln), fr.scalar(m)), sort: sInt, typ: tInt}
+	if !fr.eng.noWF || !hasBoundVar(v.t) {
+		fr.vc.fact(and(app("<=", "0", v.t), implies(eq(fr.scalar(m), "0"), eq(v.t, "0"))))
+	}
 	return v
 }
 
 func (fr *Frame) mapHas(t types.Type, m, k *Val) *Val {
 	mh := fr.mapHeaps(t)
-	return boolVal(sel(sel(fr.vc.heapGet(fr.st, mh.dom), fr.scalar(m)), fr.scalar(k)))
+	return boolVal(and(app("distinct", fr.scalar(m), "0"), sel(sel(fr.vc.heapGet(fr.st, mh.dom), fr.scalar(m)), fr.scalar(k))))
 }
 
 func (fr *Frame) mapGet(t types.Type, m, k *Val) *Val {
@@ -89,7 +92,7 @@ func (fr *Frame) lookup(i *ssa.Lookup) *Val {
 	m := fr.scalar(x)
 	k := fr.scalar(fr.value(i.Index))
 	fr.mapWFFacts(mh, m)
-	has := sel(sel(fr.vc.heapGet(fr.st, mh.dom), m), k)
+	has := and(app("distinct", m, "0"), sel(sel(fr.vc.heapGet(fr.st, mh.dom), m), k))
 	var v *Val
 	if mh.vsort == "" {
 		fr.vc.abstracted("map with struct values: lookup unconstrained")
@@ -99,6 +102,9 @@ func (fr *Frame) lookup(i *ssa.Lookup) *Val {
 		z := fr.zero(mh.mt.Elem())
 		c := fr.vc.fresh("mapget", mh.vsort)
 		fr.vc.fact(eq(c, ite(has, raw, z.t)))
+		if fr.eng.nonNilMaps[fr.eng.typeName(mh.mt)] {
+			fr.vc.fact(implies(has, app("distinct", raw, "0")))
+		}
 		v = &Val{t: c, sort: mh.vsort, typ: mh.mt.Elem()}
 		if !fr.eng.noWF {
 			fr.assumeWF(v)
@@ -116,6 +122,9 @@ func (fr *Frame) mapUpdate(i *ssa.MapUpdate) {
 	m := fr.scalar(fr.value(i.Map))
 	k := fr.scalar(fr.value(i.Key))
 	fr.oblige("P0", fr.ordName("P0/nil-map"), app("distinct", m, "0"))
+	if fr.eng.nonNilMaps[fr.eng.typeName(mh.mt)] {
+		fr.oblige("map-invariant", fr.ordName("map-values-nonnil"), app("distinct", fr.scalar(fr.value(i.Value)), "0"))
+	}
 	domH := vc.heapGet(fr.st, mh.dom)
 	lnH := vc.heapGet(fr.st, mh.ln)
 	had := sel(sel(domH, m), k)
@@ -178,6 +187,9 @@ func (fr *Frame) rangeNext(i *ssa.Next) *Val {
 		v = &Val{t: vt, sort: mh.vsort, typ: mh.mt.Elem()}
 		fr.assumeWF(v)
 		fr.assume(implies(ok, eq(vt, sel(sel(vc.heapGet(fr.st, mh.val), m), k))))
+		if fr.eng.nonNilMaps[fr.eng.typeName(mh.mt)] {
+			fr.assume(implies(ok, app("distinct", vt, "0")))
+		}
 	} else {
 		v = fr.havocVal(mh.mt.Elem(), "next_v")
 	}
